@@ -20,6 +20,9 @@
 //!             2 `Builder` names `worker-<t>`, reused by every generation (a respawned pool worker);
 //!             3 anonymous scoped threads (`thread::scope`); 4 workers spawned by a launcher thread, not
 //!             by main; 5 scoped threads that all carry the same name
+//!     bar=1   every worker of a generation makes its first draw, then waits (spinning on a Relaxed counter, with
+//!             yields) until all K workers of that generation have made theirs: K caller threads that have all
+//!             called random() are alive at the same time
 //!     fault=F injected caller-side faults (bit mask).  1: between draws a worker makes an ILLEGAL call of
 //!             another volute function (index out of range, size mismatch: documented to panic) and
 //!             catches the unwind, then keeps drawing.  2: every generation has an extra victim thread
@@ -69,6 +72,8 @@ fn stamp() -> u64 {
 /// 1 + (thread << 16 | type << 8 | n) of a call in flight (Relaxed RMWs only, like SEQ).
 static INFLIGHT: [AtomicU64; 32] = [const { AtomicU64::new(0) }; 32];
 static DONE: AtomicBool = AtomicBool::new(false);
+/// workers that have made their first draw (bar=1), all generations together
+static ARRIVED: AtomicU64 = AtomicU64::new(0);
 /// injected illegal calls made / of which unwound (evidence only; Relaxed RMWs like SEQ)
 static FAULTS: [AtomicU64; 2] = [const { AtomicU64::new(0) }; 2];
 thread_local! { static MY_TID: std::cell::Cell<u64> = const { std::cell::Cell::new(0) }; }
@@ -165,6 +170,7 @@ struct Cfg {
     hang: u64,
     spawn: u8,
     fault: u8,
+    bar: bool,
 }
 
 fn splitmix(x: &mut u64) -> u64 {
@@ -364,6 +370,14 @@ fn worker(t: usize, cfg: &Cfg) -> Vec<Ev> {
             }
             if cfg.yld {
                 thread::yield_now();
+            }
+            if cfg.bar && d == 0 && n == sizes[0] && t < cfg.gens * cfg.k {
+                // rendezvous after the first draw: wait until every worker of this generation has drawn once
+                let want = ((t / cfg.k) as u64 + 1) * cfg.k as u64;
+                ARRIVED.fetch_add(1, Ordering::Relaxed);
+                while ARRIVED.fetch_add(0, Ordering::Relaxed) < want {
+                    thread::yield_now();
+                }
             }
         }
         if cfg.battery && round == 0 {
@@ -575,6 +589,7 @@ fn main() {
         gens: a.iter().find_map(|x| x.strip_prefix("gens=")).map(|x| p(x) as usize).unwrap_or(1).max(1),
         spawn: a.iter().find_map(|x| x.strip_prefix("spawn=")).map(|x| p(x) as u8).unwrap_or(0),
         fault: a.iter().find_map(|x| x.strip_prefix("fault=")).map(|x| p(x) as u8).unwrap_or(0),
+        bar: a.iter().any(|x| x == "bar=1"),
         lut: a[4] == "lut" || a[4] == "both",
         stat: a[4] == "static" || a[4] == "both",
         order: p(&a[5]),
